@@ -131,3 +131,36 @@ Definition yield_tree (st : vstyle) (t : tree) (start : pos) (max_depth : nat) :
 (* print_tree without attributes: one printed line per triple (export.py:240-241) *)
 Definition line_of (l : vline) : str := let '(p, f, n) := l in p ++ f ++ n.
 Definition print_lines (st : vstyle) (t : tree) : list str := map line_of (yield_lines st t).
+
+(* ---------------------------------------------------------------------------------------------- *)
+(* input conventions for tree_to_dot's styling options (used by Algo/Dot.v and Spec/PC18.v).
+   A node's custom style dictionaries (the dict-valued Node attributes named by `node_attr` /
+   `edge_attr`, or returned by the callables) are stored in the tree's attribute list: key
+   'n' ++ k with value VStr v for the node style entry k -> v, key 'e' ++ k for the edge style entry. *)
+
+Definition sdict := list (str * str).
+
+Fixpoint slookup (k : str) (d : sdict) : option str :=
+  match d with [] => None | (k', v) :: r => if str_eqb k k' then Some v else slookup k r end.
+
+Definition sty_of (tagc : N) (t : tree) : sdict :=
+  flat_map (fun kv => match kv with
+                      | (c :: k, VStr v) => if N.eqb c tagc then [(k, v)] else []
+                      | _ => []
+                      end) (tattrs t).
+Definition node_sty := sty_of 110%N.     (* 'n' *)
+Definition edge_sty := sty_of 101%N.     (* 'e' *)
+
+Record dotopts := DO { do_node_colour : option str; do_node_shape : option str; do_edge_colour : option str;
+                       do_node_attr : bool; do_edge_attr : bool }.
+
+Definition s_style : str := [115; 116; 121; 108; 101]%N.
+Definition s_filled : str := [102; 105; 108; 108; 101; 100]%N.
+Definition s_fillcolor : str := [102; 105; 108; 108; 99; 111; 108; 111; 114]%N.
+Definition s_shape : str := [115; 104; 97; 112; 101]%N.
+Definition s_color : str := [99; 111; 108; 111; 114]%N.
+Definition s_label : str := [108; 97; 98; 101; 108]%N.
+
+(* an empty string counts as "not given" (the code tests truthiness) *)
+Definition given (o : option str) : option str :=
+  match o with Some [] => None | _ => o end.
